@@ -720,6 +720,162 @@ fn returns_false(e: &syn::Expr) -> bool {
     returns_false_expr(e)
 }
 
+// ---------------------------------------------------------------------------------------------------------
+// the loops that answer the callers of a query (kad.rs) and the visiting order / scratchpad guard of
+// handle_split_record_error (lib.rs)
+// ---------------------------------------------------------------------------------------------------------
+
+#[derive(Default)]
+struct ForLoops<'a>(Vec<&'a syn::ExprForLoop>);
+impl<'a> syn::visit::Visit<'a> for ForLoops<'a> {
+    fn visit_expr_for_loop(&mut self, f: &'a syn::ExprForLoop) {
+        self.0.push(f);
+        syn::visit::visit_expr_for_loop(self, f);
+    }
+    fn visit_macro(&mut self, _m: &'a syn::Macro) {}
+}
+
+/// early exits inside an expression tree: `?`, `return`, `break`
+#[derive(Default)]
+struct Exits {
+    tries: usize,
+    returns: usize,
+    breaks: usize,
+}
+impl<'a> syn::visit::Visit<'a> for Exits {
+    fn visit_expr_try(&mut self, t: &'a syn::ExprTry) {
+        self.tries += 1;
+        syn::visit::visit_expr_try(self, t);
+    }
+    fn visit_expr_return(&mut self, r: &'a syn::ExprReturn) {
+        self.returns += 1;
+        syn::visit::visit_expr_return(self, r);
+    }
+    fn visit_expr_break(&mut self, b: &'a syn::ExprBreak) {
+        self.breaks += 1;
+        syn::visit::visit_expr_break(self, b);
+    }
+    fn visit_expr_closure(&mut self, _c: &'a syn::ExprClosure) {}
+    fn visit_macro(&mut self, _m: &'a syn::Macro) {}
+}
+
+/// `true`: every `for <sender> in <senders>` loop of the GetRecord handlers that calls `<sender>.send(..)` runs to its
+/// end whatever a `send` returns (no `?`, `return` or `break` inside the loop), so every waiting caller is served;
+/// `false`: every such loop leaves through `?` on the result of `send` (the first dropped receiver ends the loop and the
+/// senders behind it are dropped unanswered); a mixture or any other way of answering the senders is refused.
+fn read_send_serves_all(blocks: &[&syn::Block]) -> Result<bool, String> {
+    use syn::visit::Visit;
+    let mut fl = ForLoops::default();
+    for b in blocks {
+        fl.visit_block(b);
+    }
+    let mut verdicts = vec![];
+    for f in &fl.0 {
+        let Some(var) = pat_ident(&f.pat) else { continue };
+        let c = collect(&[&f.body]);
+        let sends: Vec<&&syn::ExprMethodCall> = c.method_calls.iter().filter(|m| m.method == "send" && ident_of(&m.receiver).as_deref() == Some(var.as_str())).collect();
+        if sends.is_empty() {
+            continue;
+        }
+        if sends.len() > 1 {
+            return Err(format!("a sender loop sends more than once per `{var}`"));
+        }
+        let mut ex = Exits::default();
+        ex.visit_block(&f.body);
+        if ex.returns > 0 || ex.breaks > 0 {
+            return Err("a sender loop is left through `return`/`break`".into());
+        }
+        match ex.tries {
+            0 => verdicts.push(true),
+            1 => {
+                // the `?` must be the one applied to the result of the send
+                let t = toks(&f.body);
+                if !(t.contains(&format!("{var}.send(")) && t.contains("InternalMsgChannelDropped)?")) {
+                    return Err("a sender loop uses `?` on something that is not the result of `send`".into());
+                }
+                verdicts.push(false)
+            }
+            _ => return Err("a sender loop uses `?` more than once".into()),
+        }
+    }
+    // every `.send(..)` of the handlers must sit in one of the loops recognised above
+    let all_sends = collect(blocks).method_calls.iter().filter(|m| m.method == "send").count();
+    if verdicts.is_empty() {
+        return Err("no `for sender in senders { sender.send(..) }` loop found".into());
+    }
+    if all_sends != verdicts.len() {
+        return Err(format!("{all_sends} `.send(..)` calls but {} recognised sender loops", verdicts.len()));
+    }
+    if verdicts.iter().all(|v| *v) {
+        Ok(true)
+    } else if verdicts.iter().all(|v| !*v) {
+        Ok(false)
+    } else {
+        Err("some sender loops stop at the first dropped receiver and some do not".into())
+    }
+}
+
+/// the `for` loop of `handle_split_record_error` that visits the versions (its body reads the `RecordHeader`)
+fn version_loop<'a>(f: &'a syn::ImplItemFn) -> Result<&'a syn::ExprForLoop, String> {
+    use syn::visit::Visit;
+    let mut fl = ForLoops::default();
+    fl.visit_block(&f.block);
+    let hits: Vec<&&syn::ExprForLoop> = fl.0.iter().filter(|l| calls_in_block(&l.body).paths.iter().any(|p| p.ends_with("RecordHeader::from_record"))).collect();
+    match hits.as_slice() {
+        [l] => Ok(**l),
+        _ => Err(format!("expected one loop over the versions (reading RecordHeader::from_record), found {}", hits.len())),
+    }
+}
+
+/// `true`: the versions are visited in ascending order of the map key (the content hash):
+///   `let mut v: Vec<_> = <map>.iter().collect(); v.sort_by_key(|(k, _)| **k); for (_, (record, _)) in v`
+/// `false`: in the map's own order, `for (record, _) in <map>.values()`; anything else is refused.
+fn read_split_visit_order(f: &syn::ImplItemFn) -> Result<bool, String> {
+    let map = f
+        .sig
+        .inputs
+        .iter()
+        .find_map(|a| match a {
+            syn::FnArg::Typed(t) if toks(&*t.ty).contains("HashMap<XorName,(Record,HashSet<PeerId>)>") => pat_ident(&t.pat),
+            _ => None,
+        })
+        .ok_or("no result-map parameter of type HashMap<XorName,(Record,HashSet<PeerId>)>")?;
+    let lp = version_loop(f)?;
+    if let Some(m) = method(&lp.expr, "values") {
+        return if ident_of(&m.receiver).as_deref() == Some(map.as_str()) && m.args.is_empty() && toks(&*lp.pat) == "(record,_)" {
+            Ok(false)
+        } else {
+            Err(format!("the versions are visited through `{}`", toks(&*lp.expr)))
+        };
+    }
+    let Some(v) = ident_of(&lp.expr) else { return Err(format!("the versions are visited through `{}`", toks(&*lp.expr))) };
+    if toks(&*lp.pat) != "(_,(record,_))" {
+        return Err(format!("unexpected loop pattern `{}` over `{v}`", toks(&*lp.pat)));
+    }
+    let c = collect(&[&f.block]);
+    let inits: Vec<&(String, &syn::Expr)> = c.locals.iter().filter(|(n, _)| *n == v).collect();
+    let [(_, init)] = inits.as_slice() else { return Err(format!("`{v}` is not bound exactly once")) };
+    if toks(*init) != format!("{map}.iter().collect()") {
+        return Err(format!("`{v}` is bound to `{}`, not to `{map}.iter().collect()`", toks(*init)));
+    }
+    // every method call on `v` between its binding and the loop: exactly one sort by the key
+    let on_v: Vec<&&syn::ExprMethodCall> = c.method_calls.iter().filter(|m| ident_of(&m.receiver).as_deref() == Some(v.as_str())).collect();
+    let [s] = on_v.as_slice() else { return Err(format!("expected exactly one method call on `{v}` (the sort), found {}", on_v.len())) };
+    if !(s.method == "sort_by_key" || s.method == "sort_unstable_by_key") || s.args.len() != 1 {
+        return Err(format!("`{v}` is not sorted with sort_by_key: `{}`", toks(**s)));
+    }
+    let syn::Expr::Closure(cl) = peel(&s.args[0]) else { return Err("the sort key is not a closure".into()) };
+    let key_name = match cl.inputs.first() {
+        Some(syn::Pat::Tuple(t)) if cl.inputs.len() == 1 && t.elems.len() == 2 && matches!(&t.elems[1], syn::Pat::Wild(_)) => pat_ident(&t.elems[0]),
+        _ => None,
+    }
+    .ok_or("the sort closure does not take `(key, _)`")?;
+    if toks(&*cl.body) != format!("**{key_name}") {
+        return Err(format!("the sort key is `{}`, not the map key", toks(&*cl.body)));
+    }
+    Ok(true)
+}
+
 pub fn generate(repo: &PathBuf) -> Result<String, String> {
     let proto = parse_file(&repo.join("ant-protocol/src/lib.rs"))?;
     let cgs = const_value(&proto, "CLOSE_GROUP_SIZE")?;
@@ -794,6 +950,22 @@ pub fn generate(repo: &PathBuf) -> Result<String, String> {
     let sender_fn = impl_fn(&kadf, "SwarmDriver", None, "send_record_after_checking_target")?;
     let send_blocks = with_private_helpers(&kadf, &sender_fn.block, &[]);
     let target_checked = read_target_checked(&send_blocks).map_err(|e| format!("send_record_after_checking_target: {e}"))?;
+    // the loops that answer the callers, in the three handlers and every private helper they reach
+    let fin = impl_fn(&kadf, "SwarmDriver", None, "handle_get_record_finished")?;
+    let errh = impl_fn(&kadf, "SwarmDriver", None, "handle_get_record_error")?;
+    let mut answer_blocks: Vec<&syn::Block> = vec![];
+    for b in [&acc.block, &fin.block, &errh.block] {
+        for h in with_private_helpers(&kadf, b, &[]) {
+            if !answer_blocks.iter().any(|x| std::ptr::eq(*x, h)) {
+                answer_blocks.push(h);
+            }
+        }
+    }
+    let send_serves_all = read_send_serves_all(&answer_blocks).map_err(|e| format!("GetRecord handlers: {e}"))?;
+
+    // lib.rs Network::handle_split_record_error
+    let hsre = impl_fn(&lib, "Network", None, "handle_split_record_error")?;
+    let split_key_order = read_split_visit_order(hsre).map_err(|e| format!("handle_split_record_error: {e}"))?;
 
     // ant-protocol/src/storage/transaction.rs: the split branch of accumulate_get_record_found unions the versions'
     // transactions in a BTreeSet<Transaction> (uses Ord), handle_split_record_error in a HashSet (uses Eq + Hash)
@@ -824,8 +996,13 @@ pub fn generate(repo: &PathBuf) -> Result<String, String> {
     s.push_str(&format!("/-- `send_record_after_checking_target` answers `RecordDoesNotMatch` unless `cfg.does_target_match(&record)` -/\ndef targetChecked : Bool := {}\n", lean_bool(target_checked)));
     s.push_str(&format!("/-- `accumulate_get_record_found` drops a reply whose `record.key` is not the key of the pending query, before any use of the reply (false: the key is never compared) -/\ndef foundChecksKey : Bool := {}\n", lean_bool(found_checks_key)));
     s.push_str(&format!("/-- `Transaction` derives `Ord`/`PartialOrd` (and `PartialEq`, `Eq`, `Hash`) over all of its fields owner, parents, content, outputs, signature, so a `BTreeSet<Transaction>` keeps transactions that differ only in the signature apart (false: a hand-written `Ord` that leaves the signature out) -/\ndef txOrdComparesAllFields : Bool := {}\n", lean_bool(tx_ord_all_fields)));
+    s.push_str(&format!("/-- the loops that answer the callers waiting on a query serve every sender: a dropped receiver does not keep the senders behind it from their answer, `InternalMsgChannelDropped` is returned after all are served (false: `?` on the result of `send` inside the loop, the first dropped receiver ends it and the remaining senders are dropped unanswered) -/\ndef sendServesAllCallers : Bool := {}\n", lean_bool(send_serves_all)));
+    s.push_str(&format!("/-- `handle_split_record_error` visits the versions in ascending order of the map key, the content hash (false: in the iteration order of the `HashMap`) -/\ndef splitVisitsInKeyOrder : Bool := {}\n", lean_bool(split_key_order)));
     s.push_str("/-- how `GetRecordCfg::does_target_match` compares the ops of the fetched register with the target's (`is_register`) -/\ninductive OpsCmp where\n  | eq | targetSubsetOfFetched | fetchedSubsetOfTarget\n  deriving DecidableEq, Repr\n");
     s.push_str(&format!("/-- `does_target_match`, register branch: base registers equal && the ops compared as named here; a record that does not deserialise never matches; without `is_register`: `target_record == record` -/\ndef regTargetOpsCmp : OpsCmp := .{reg_ops_cmp}\n"));
+    // the scratchpad arm of handle_split_record_error: read by the C15 rule (two-sided; see clientread.rs)
+    let split_pad_checks_key = crate::clientread::net_split_checks_pad_key(repo)?;
+    s.push_str(&format!("/-- `handle_split_record_error`, `Scratchpad` arm: a scratchpad whose own address does not map to the record key being read is skipped before counters are compared -/\ndef splitPadChecksKey : Bool := {}\n", lean_bool(split_pad_checks_key)));
     s.push_str("end SafeNet.Gen.Quorum\n");
     Ok(s)
 }
